@@ -59,6 +59,14 @@ func xrExpectedTS(b rtcp.ReportBlock) (bt, ts uint8) {
 	return 0, 0
 }
 
+// normBlock returns the block with the XRHeader convenience field cleared (for known kinds;
+// for unknown blocks only the derived BlockLength): the statement is about the wire and the
+// semantic fields, not about that field.
+func normBlock(b rtcp.ReportBlock) rtcp.ReportBlock {
+	x := normXR(&rtcp.ExtendedReport{Reports: []rtcp.ReportBlock{b}}).(*rtcp.ExtendedReport)
+	return x.Reports[0]
+}
+
 func c15Judge(cs *core.Case, x *rtcp.ExtendedReport) {
 	kf5 := gen.IsKF5(x)
 	var kfs []string
@@ -107,30 +115,6 @@ func c15Judge(cs *core.Case, x *rtcp.ExtendedReport) {
 		if !cs.Check(wb.TypeSpecific == ts, "walk/type-specific", det(core.W{"index": i, "got": wb.TypeSpecific, "expected": ts}), kfs...) {
 			return
 		}
-		// the documented side effect: XRHeader equals the wire header after Marshal
-		var h rtcp.XRHeader
-		switch v := x.Reports[i].(type) {
-		case *rtcp.LossRLEReportBlock:
-			h = v.XRHeader
-		case *rtcp.DuplicateRLEReportBlock:
-			h = v.XRHeader
-		case *rtcp.PacketReceiptTimesReportBlock:
-			h = v.XRHeader
-		case *rtcp.ReceiverReferenceTimeReportBlock:
-			h = v.XRHeader
-		case *rtcp.DLRRReportBlock:
-			h = v.XRHeader
-		case *rtcp.StatisticsSummaryReportBlock:
-			h = v.XRHeader
-		case *rtcp.VoIPMetricsReportBlock:
-			h = v.XRHeader
-		case *rtcp.UnknownReportBlock:
-			h = v.XRHeader
-		}
-		if !cs.Check(uint8(h.BlockType) == wb.BT && uint8(h.TypeSpecific) == wb.TypeSpecific && h.BlockLength == wb.LengthWords, "xrheader-after-marshal",
-			det(core.W{"index": i, "xrheader": vdump(h), "wire": fmt.Sprintf("bt=%d ts=%d len=%d", wb.BT, wb.TypeSpecific, wb.LengthWords)}), kfs...) {
-			return
-		}
 	}
 	// reference layout of the whole packet (block length = words-1 of the octets up to the next block is implied by the walk)
 	if e, rerr := ref.Encode(x, ref.RFC); rerr == nil {
@@ -160,7 +144,7 @@ func c15Judge(cs *core.Case, x *rtcp.ExtendedReport) {
 		if !cs.Check(gen.XRKindOf(gx.Reports[i]) == wantKind, "decode/block-go-type", det(core.W{"index": i, "decoded": vdump(gx.Reports[i])}), kfs...) {
 			return
 		}
-		if !cs.Check(mon.SemEqual(gx.Reports[i], x.Reports[i]), "decode/block-value", det(core.W{"index": i, "decoded": vdump(gx.Reports[i]), "expected": vdump(x.Reports[i])}), kfs...) {
+		if !cs.Check(mon.SemEqual(normBlock(gx.Reports[i]), normBlock(x.Reports[i])), "decode/block-value", det(core.W{"index": i, "decoded": vdump(gx.Reports[i]), "expected": vdump(x.Reports[i])}), kfs...) {
 			return
 		}
 	}
@@ -175,7 +159,7 @@ func c15Judge(cs *core.Case, x *rtcp.ExtendedReport) {
 				cs.Fail("panic/Unmarshal", det(core.W{"panic": p1, "single_block_hex": mon.Hex(single, 200)})())
 				return
 			}
-			if e1 != nil || len(g1.(*rtcp.ExtendedReport).Reports) != 1 || !mon.SemEqual(g1.(*rtcp.ExtendedReport).Reports[0], gx.Reports[i]) {
+			if e1 != nil || len(g1.(*rtcp.ExtendedReport).Reports) != 1 || !mon.SemEqual(normBlock(g1.(*rtcp.ExtendedReport).Reports[0]), normBlock(gx.Reports[i])) {
 				cs.Fail("neighbour-independence", det(core.W{"index": i, "alone_error": errStr(e1), "alone": vdump(g1), "in_packet": vdump(gx.Reports[i])})(), kfs...)
 				return
 			}
